@@ -41,14 +41,15 @@ const (
 )
 
 type Plan struct {
-	Check   string
-	Args    []string // proxy CLI arguments (without -forward-url)
-	Clients []*ClientPlan
-	Backend BackendPlan
-	Tape    []uint16
-	Tail    uint64 // seeds the PRNG used after the tape
-	Budget  int    // max controller decisions before the drain phase
-	Faults  FaultPlan
+	Check         string
+	Args          []string // proxy CLI arguments (without -forward-url)
+	ForwardPrefix string   // path prefix of the -forward-url ("" or "/base": no trailing slash)
+	Clients       []*ClientPlan
+	Backend       BackendPlan
+	Tape          []uint16
+	Tail          uint64 // seeds the PRNG used after the tape
+	Budget        int    // max controller decisions before the drain phase
+	Faults        FaultPlan
 
 	BackendKeepAlive   bool
 	ExtraInjectors     []ExtraInjector
@@ -458,7 +459,7 @@ func NewWorld(t testingT, plan *Plan) *World {
 	}
 
 	w.ctx, w.Cancel = context.WithCancel(context.Background())
-	args := append([]string{"-forward-url", "http://" + backendAddr}, plan.Args...)
+	args := append([]string{"-forward-url", "http://" + backendAddr + plan.ForwardPrefix}, plan.Args...)
 	// a quarter of the runs (a function of the plan) ask for verbose logs: no property depends on
 	// that flag, so nothing a check observes may change with it (wave 12: C01-s, C15-r)
 	if plan.Tail%4 == 2 && !slices.Contains(args, "-verbose") {
